@@ -188,6 +188,10 @@ pub fn random_decl(rng: &mut Rng, name: &str) -> Decl {
             seen.insert(newn);
         }
     }
+    // a third of the declarations list their variants in random order (children before parents, leaves before masters)
+    if rng.chance(1, 3) {
+        rng.shuffle(&mut d.vars);
+    }
     d
 }
 
@@ -752,6 +756,10 @@ pub fn make_broken(rng: &mut Rng, base: &Decl, class: &str) -> Option<String> {
             });
         }
         _ => return None,
+    }
+    // whether a broken declaration is rejected must not depend on the order in which the variants are listed
+    if rng.chance(1, 2) {
+        rng.shuffle(&mut d.vars);
     }
     Some(d.attribute_form(false))
 }
